@@ -559,6 +559,31 @@ def check_metadata(ctx):
     ok = "location = verif.location.Location(id, currLat, currLon, currElev)" in src and "locationInfo[id] = location" in src and \
         "lat = locationInfo[id].lat" in src and "lon = locationInfo[id].lon" in src and "elev = locationInfo[id].elev" in src
     ctx.ob("C09.4", site, ok, "Location(id, lat, lon, elev) of the row is stored per id and reused for later rows", msg="the per-id location bookkeeping changed")
+    # the position components of the row key are those of the Location stored for the row's id (first description wins) and nothing else:
+    # the densification looks rows up with the stored Location's lat/lon/elev, so a key built from the row's own (revised, more precise)
+    # position is never found again
+    f_ = prog.func(site)
+    for n_ in ast.walk(f_):
+        if not (isinstance(n_, ast.Assign) and len(n_.targets) == 1 and isinstance(n_.targets[0], ast.Name) and isinstance(n_.value, ast.Tuple)
+                and len(n_.value.elts) >= 6 and all(isinstance(e_, ast.Name) for e_ in n_.value.elts[:6])):
+            continue
+        names = [e_.id for e_ in n_.value.elts[:6]]
+        idname = names[2]
+        for pos, role in ((3, "lat"), (4, "lon"), (5, "elev")):
+            defs = [a for a in ast.walk(f_) if isinstance(a, ast.Assign) and a.lineno < n_.lineno and any(isinstance(t, ast.Name) and t.id == names[pos] for t in a.targets)]
+            near = [a for a in defs if a.lineno > n_.lineno - 40]
+            for a in near:
+                v = a.value
+                base_ok = isinstance(v, ast.Attribute) and v.attr == role and any(
+                    (isinstance(x, ast.Subscript) and dotted(x.slice) == idname) or
+                    (isinstance(x, ast.Call) and isinstance(x.func, ast.Attribute) and x.func.attr == "get" and x.args and dotted(x.args[0]) == idname)
+                    for x in ast.walk(v.value))
+                if isinstance(v, ast.Constant) or (isinstance(v, ast.Attribute) and dotted(v) in ("np.nan", "numpy.nan")):
+                    continue          # the default before the row is read
+                ctx.ob("C09.4", site, base_ok, "row key: %s is the %s of the Location stored for the row's id" % (names[pos], role), loc=prog.loc(m, a),
+                       msg="the %s component of the row key is `%s`, not the %s of the Location stored for this id: rows whose own position differs from the "
+                           "first description of the station are stored under a key the array-filling loop never looks up" % (role, norm(v)[:90], role))
+        break
     loc = prog.cls("verif.location.Location")
     params = [a.arg for a in loc.methods["__init__"].args.args]
     ctx.ob("C09.4", "verif.location.Location.__init__", params == ["self", "id", "lat", "lon", "elev"], "Location(id, lat, lon, elev) parameter order",
